@@ -65,7 +65,8 @@ def build_programs():
         k += 1
     for a in NATS:
         conv.append(f'    result("n2f{k}", n2f({lit(a, "nat")}))')
-        conv.append(f'    result("n2i{k}", n2i({lit(a, "nat")}))')
+        if a < P63:   # 1.0.4 checks nat -> int conversions (panics above 2^63 - 1)
+            conv.append(f'    result("n2i{k}", n2i({lit(a, "nat")}))')
         k += 1
     for a in FLOATS + [0.49, -0.51, 1e10]:
         conv.append(f'    result("f2i{k}", f2i({float(a)!r}))')
@@ -110,7 +111,7 @@ def run_one(item):
     from vlib import hugrvm
     try:
         return _run_one(name, src, hugrvm)
-    except Exception as e:  # noqa: BLE001
+    except BaseException as e:  # noqa: BLE001  (pyo3 panics derive from BaseException)
         return name, 0, [f"could not run: {type(e).__name__}: {str(e)[:300]}"]
 
 
